@@ -739,6 +739,10 @@ class PRUDPClient:
 		self.packets = [queue.create() for i in range(substreams)]
 		self.unreliable_packets = queue.create()
 		
+		# The fragments of a message must not be interleaved with
+		# those of another message on the same substream
+		self.send_locks = [anyio.Lock() for i in range(substreams)]
+		
 		self.group = None
 		self.scheduler = None
 		self.ping_event = None
@@ -836,13 +840,14 @@ class PRUDPClient:
 		if not 0 <= substream <= self.max_substream_id:
 			raise ValueError("Substream id is invalid")
 		
-		fragment_id = 1
-		while data:
-			if len(data) <= self.fragment_size:
-				fragment_id = 0
-			await self.send_fragment(data[:self.fragment_size], fragment_id, substream)
-			data = data[self.fragment_size:]
-			fragment_id += 1
+		async with self.send_locks[substream]:
+			fragment_id = 1
+			while data:
+				if len(data) <= self.fragment_size:
+					fragment_id = 0
+				await self.send_fragment(data[:self.fragment_size], fragment_id, substream)
+				data = data[self.fragment_size:]
+				fragment_id += 1
 	
 	async def send_fragment(self, data, fragment_id, substream):
 		packet = PRUDPPacket(TYPE_DATA, FLAG_RELIABLE | FLAG_NEED_ACK | FLAG_HAS_SIZE)
